@@ -940,9 +940,12 @@ class SimKernel:
         return b"".join(out)
 
     def render_fdinfo(self, d):
-        return ("pos:\t%d\nflags:\t0%o\nmnt_id:\t%d\nino:\t%d\n" % (
+        out = "pos:\t%d\nflags:\t0%o\nmnt_id:\t%d\nino:\t%d\n" % (
             d.get("pos", 0), d.get("flags", 0), 29, d.get("ino", 7))
-        ).encode()
+        for ln in d.get("locks") or ():
+            # advisory locks held through this descriptor (fs/locks.c)
+            out += "lock:\t%s\n" % ln
+        return out.encode()
 
     def fd_target(self, d):
         kind = d["kind"]
